@@ -1,8 +1,8 @@
 \* generated by props/_handshake.py (table CFGS) -- do not edit by hand
 SPECIFICATION Spec
 CONSTANTS
-  Nodes <- NodesM
-  Conns <- ConnsM
+  Nodes = {"A", "B", "O", "D"}
+  Conns = {"c1", "c2", "c3", "o1", "o2", "d1"}
   Cl <- ClM
   Sv <- SvM
   Eph <- EphM
